@@ -19,6 +19,19 @@
 //! Case grammar (tokens; optional names are `-` or `x<hex>`):
 //!   case   := <kind label> inc <0|1> chosen (none | <k> name*k) regs <n> reg*n streams <s> stream*s
 //!             [own <file> <file>]                      -- v1 then v1alpha own descriptor, iff inc=1
+//!             [drive <via> <seq|par> <ops>]            -- HOW the case is driven (absent = direct seq, canonical ops)
+//!   via    := direct   each generated client directly over its own `ServerReflectionServer`
+//!           | routes   ONE `tonic::service::Routes` holding v1, v1alpha and a tonic-health service (routed by
+//!                      `NamedService::NAME`); both clients call clones of it
+//!           | h2 | h2z the same three services in the real `transport::Server` stack over an in-memory duplex
+//!                      pipe, reached through a real `Channel` (h2z: gzip accepted + sent on both sides)
+//!   par    := all streams of a version are open at the same time on clones of the one service
+//!   step   := (in place of seq / par) lock-step: the request stream stays open and request i+1 is sent only
+//!             after answer i was read (an interactive client such as grpcurl); a missing answer is `stalled`
+//!   ops    := the builder program, a word over r (next registration), n (next `with_service_name`),
+//!             i / o (`include_reflection_service(true / false)`); no i/o at all = the builder's default.
+//!             `inc`, `chosen`, `regs` above are what the documented API says the program configures (the last
+//!             i/o counts, default on); a case whose word disagrees with them is a bad case.
 //!   reg    := S <k> file*k | E <k> file*k | B <hex>
 //!   file   := F <name?> <pkg?> <extra> <k> msg*k <k> enum*k <k> svc*k
 //!   msg    := <name?> <k> msg*k <k> enum*k <k> name?*k <k> name?*k      (nested, enums, fields, oneofs)
@@ -92,6 +105,57 @@ struct Case {
     regs: Vec<Reg>,
     streams: Vec<Vec<Req>>,
     own: Option<(FileD, FileD)>,
+    drive: Option<Drive>,
+}
+#[derive(Clone, Copy, Debug, PartialEq)]
+enum Via {
+    Direct,
+    Routes,
+    H2,
+    H2z,
+}
+#[derive(Clone, Debug)]
+struct Drive {
+    via: Via,
+    mode: Mode,
+    ops: String,
+}
+#[derive(Clone, Copy, Debug, PartialEq)]
+enum Mode {
+    Seq,
+    Par,
+    Step,
+}
+impl Via {
+    fn tok(self) -> &'static str {
+        match self {
+            Via::Direct => "direct",
+            Via::Routes => "routes",
+            Via::H2 => "h2",
+            Via::H2z => "h2z",
+        }
+    }
+}
+/// the builder program of a case without a `drive` section: registrations, names, include(inc)
+fn canonical_ops(c: &Case) -> String {
+    let mut s = "r".repeat(c.regs.len());
+    s.push_str(&"n".repeat(c.chosen.as_ref().map_or(0, |l| l.len())));
+    s.push(if c.inc { 'i' } else { 'o' });
+    s
+}
+/// what the documented API says a builder program configures: (registrations, names, include)
+fn ops_reading(ops: &str) -> Option<(usize, usize, bool)> {
+    let (mut r, mut n, mut inc) = (0, 0, true);
+    for ch in ops.chars() {
+        match ch {
+            'r' => r += 1,
+            'n' => n += 1,
+            'i' => inc = true,
+            'o' => inc = false,
+            _ => return None,
+        }
+    }
+    Some((r, n, inc))
 }
 
 // ---------------------------------------------------------------- rendering
@@ -211,6 +275,17 @@ fn render_case(c: &Case) -> String {
         o.push("own".into());
         push_file(&mut o, a);
         push_file(&mut o, b);
+    }
+    if let Some(d) = &c.drive {
+        o.push("drive".into());
+        o.push(d.via.tok().into());
+        o.push(match d.mode {
+            Mode::Seq => "seq",
+            Mode::Par => "par",
+            Mode::Step => "step",
+        }
+        .into());
+        o.push(if d.ops.is_empty() { "-".into() } else { d.ops.clone() });
     }
     o.join(" ")
 }
@@ -345,10 +420,37 @@ impl<'a> P<'a> {
         } else {
             None
         };
+        let drive = if self.i < self.t.len() {
+            self.expect("drive")?;
+            let via = match self.next()? {
+                "direct" => Via::Direct,
+                "routes" => Via::Routes,
+                "h2" => Via::H2,
+                "h2z" => Via::H2z,
+                _ => return None,
+            };
+            let mode = match self.next()? {
+                "seq" => Mode::Seq,
+                "par" => Mode::Par,
+                "step" => Mode::Step,
+                _ => return None,
+            };
+            let ops = match self.next()? {
+                "-" => String::new(),
+                w => w.to_string(),
+            };
+            let (r, n, i) = ops_reading(&ops)?;
+            if r != regs.len() || n != chosen.as_ref().map_or(0, |l: &Vec<String>| l.len()) || i != inc {
+                return None;
+            }
+            Some(Drive { via, mode, ops })
+        } else {
+            None
+        };
         if self.i != self.t.len() {
             return None;
         }
-        Some(Case { inc, chosen, regs, streams, own })
+        Some(Case { inc, chosen, regs, streams, own, drive })
     }
 }
 
@@ -429,7 +531,9 @@ fn file_proto(f: &FileD) -> FileDescriptorProto {
                 location: vec![prost_types::source_code_info::Location {
                     path: vec![4, 0],
                     span: vec![1, 2, 3],
-                    leading_comments: Some("// é comment".into()),
+                    // extra = 5: a descriptor larger than an HTTP/2 flow-control window and tonic's
+                    // buffer sizes (its answer takes several DATA frames and window updates)
+                    leading_comments: Some(if x == 5 { "// é comment ".repeat(6000) } else { "// é comment".into() }),
                     ..Default::default()
                 }],
             })
@@ -497,25 +601,37 @@ fn own_protos() -> (FileDescriptorProto, FileDescriptorProto) {
 
 // ---------------------------------------------------------------- execution against the real code
 
+/// The builder program of the case, call by call, on the REAL builder.
 fn builder_for<'b>(c: &Case, encoded: &'b [Option<Vec<u8>>]) -> Builder<'b> {
+    let ops = match &c.drive {
+        Some(d) => d.ops.clone(),
+        None => canonical_ops(c),
+    };
     let mut b = Builder::configure();
-    // call order = registration order of the case (the builder itself separates the two kinds)
-    for (i, r) in c.regs.iter().enumerate() {
-        match r {
-            Reg::S(fs) => {
-                b = b.register_file_descriptor_set(FileDescriptorSet { file: fs.iter().map(file_proto).collect() });
+    let (mut ri, mut ni) = (0usize, 0usize);
+    for ch in ops.chars() {
+        match ch {
+            'r' => {
+                match &c.regs[ri] {
+                    Reg::S(fs) => {
+                        b = b.register_file_descriptor_set(FileDescriptorSet { file: fs.iter().map(file_proto).collect() });
+                    }
+                    Reg::E(_) | Reg::B(_) => {
+                        b = b.register_encoded_file_descriptor_set(encoded[ri].as_ref().unwrap());
+                    }
+                }
+                ri += 1;
             }
-            Reg::E(_) | Reg::B(_) => {
-                b = b.register_encoded_file_descriptor_set(encoded[i].as_ref().unwrap());
+            'n' => {
+                b = b.with_service_name(c.chosen.as_ref().unwrap()[ni].clone());
+                ni += 1;
             }
+            'i' => b = b.include_reflection_service(true),
+            'o' => b = b.include_reflection_service(false),
+            _ => unreachable!("checked by the parser"),
         }
     }
-    if let Some(l) = &c.chosen {
-        for s in l {
-            b = b.with_service_name(s.clone());
-        }
-    }
-    b.include_reflection_service(c.inc)
+    b
 }
 
 fn build_err(e: &Error) -> String {
@@ -559,20 +675,70 @@ fn fd_token(bytes: &[Vec<u8>], all: &[FileDescriptorProto], extras: &[u64]) -> S
     }
 }
 
-macro_rules! drive_version {
-    ($fname:ident, $pb:path, $build:ident) => {
-        fn $fname(c: &Case, encoded: &[Option<Vec<u8>>], all: &[FileDescriptorProto], extras: &[u64]) -> String {
+/// what the canonicalisation of one version's answers needs
+struct Ctx {
+    all: Vec<FileDescriptorProto>,
+    extras: Vec<u64>,
+    sort_services: bool,
+}
+
+type StdError = Box<dyn std::error::Error + Send + Sync + 'static>;
+type LocalFut<'a, T> = std::pin::Pin<Box<dyn std::future::Future<Output = T> + 'a>>;
+
+/// Polls every future on each wake-up until all are done (no spawning: the futures are all alive
+/// and interleaved on the one thread, in a fixed order).
+async fn join_all<'a, T>(mut futs: Vec<LocalFut<'a, T>>) -> Vec<T> {
+    let mut outs: Vec<Option<T>> = futs.iter().map(|_| None).collect();
+    std::future::poll_fn(|cx| {
+        let mut pending = false;
+        for (i, f) in futs.iter_mut().enumerate() {
+            if outs[i].is_none() {
+                match f.as_mut().poll(cx) {
+                    std::task::Poll::Ready(v) => outs[i] = Some(v),
+                    std::task::Poll::Pending => pending = true,
+                }
+            }
+        }
+        if pending {
+            std::task::Poll::Pending
+        } else {
+            std::task::Poll::Ready(())
+        }
+    })
+    .await;
+    outs.into_iter().map(|o| o.unwrap()).collect()
+}
+
+macro_rules! version_mod {
+    ($m:ident, $pb:path, $build:ident) => {
+        mod $m {
+            use super::*;
             use $pb as pb;
             use pb::server_reflection_client::ServerReflectionClient;
             use pb::server_reflection_request::MessageRequest;
             use pb::server_reflection_response::MessageResponse;
-            let svc = match builder_for(c, encoded).$build() {
-                Err(e) => return build_err(&e),
-                Ok(s) => s,
-            };
-            let rt = tokio::runtime::Builder::new_current_thread().enable_all().build().unwrap();
-            let mut out: Vec<String> = vec!["ok".into()];
-            for stream in &c.streams {
+            use pb::server_reflection_server::{ServerReflection, ServerReflectionServer};
+            use tonic::codec::CompressionEncoding;
+
+            /// the real builder run on the case's program, then `build_v1` / `build_v1alpha`
+            pub fn build(c: &Case, encoded: &[Option<Vec<u8>>], gzip: bool) -> Result<ServerReflectionServer<impl ServerReflection>, Error> {
+                let s = builder_for(c, encoded).$build()?;
+                Ok(if gzip { s.accept_compressed(CompressionEncoding::Gzip).send_compressed(CompressionEncoding::Gzip) } else { s })
+            }
+
+            /// `NamedService::NAME` of the generated server: what `Routes` / `transport::Server` route by
+            pub fn server_name<S: ServerReflection>(_: &ServerReflectionServer<S>) -> &'static str {
+                <ServerReflectionServer<S> as tonic::server::NamedService>::NAME
+            }
+
+            /// one call of `ServerReflectionInfo` through the generated client over `t`
+            async fn one_stream<T>(t: T, gzip: bool, step: bool, stream: &[Req], ctx: &Ctx) -> Vec<String>
+            where
+                T: tonic::client::GrpcService<tonic::body::Body>,
+                T::Error: Into<StdError>,
+                T::ResponseBody: http_body::Body<Data = bytes::Bytes> + Send + 'static,
+                <T::ResponseBody as http_body::Body>::Error: Into<StdError> + Send,
+            {
                 let reqs: Vec<pb::ServerReflectionRequest> = stream
                     .iter()
                     .map(|r| pb::ServerReflectionRequest {
@@ -591,81 +757,125 @@ macro_rules! drive_version {
                     })
                     .collect();
                 let sent = reqs.clone();
-                let svc = svc.clone();
-                let sort_services = c.chosen.is_none();
-                let toks: Vec<String> = rt.block_on(async move {
-                    let mut o: Vec<String> = vec!["[".into()];
-                    let mut client = ServerReflectionClient::new(svc);
-                    let resp = client.server_reflection_info(tokio_stream::iter(reqs)).await;
-                    let mut inbound = match resp {
-                        Err(st) => {
-                            o.push(format!("call-err {}", st.code() as i32));
-                            o.push("]".into());
-                            return o;
-                        }
-                        Ok(r) => r.into_inner(),
-                    };
-                    let mut idx = 0usize;
-                    loop {
-                        match inbound.message().await {
-                            Ok(Some(m)) => {
-                                let echo = idx < sent.len()
-                                    && m.valid_host == sent[idx].host
-                                    && m.original_request.as_ref() == Some(&sent[idx]);
-                                o.push(if echo { "r1".into() } else { "r0".into() });
-                                match m.message_response {
-                                    None => o.push("empty".into()),
-                                    Some(MessageResponse::FileDescriptorResponse(f)) => {
-                                        o.push(fd_token(&f.file_descriptor_proto, all, extras))
-                                    }
-                                    Some(MessageResponse::AllExtensionNumbersResponse(e)) => {
-                                        if e == pb::ExtensionNumberResponse::default() {
-                                            o.push("ext-empty".into())
-                                        } else {
-                                            o.push("ext-other".into())
-                                        }
-                                    }
-                                    Some(MessageResponse::ListServicesResponse(l)) => {
-                                        o.push(format!("svcs {}", l.service.len()));
-                                        let mut names: Vec<&str> = l.service.iter().map(|s| s.name.as_str()).collect();
-                                        if sort_services {
-                                            names.sort_unstable_by(|a, b| a.as_bytes().cmp(b.as_bytes()));
-                                        }
-                                        for n in names {
-                                            o.push(hex(n.as_bytes()));
-                                        }
-                                    }
-                                    Some(MessageResponse::ErrorResponse(e)) => {
-                                        o.push(format!("error-response {}", e.error_code))
-                                    }
-                                }
-                                idx += 1;
-                                if idx > sent.len() + 4 {
-                                    o.push("runaway".into());
-                                    break;
-                                }
+                let mut o: Vec<String> = vec!["[".into()];
+                let mut client = ServerReflectionClient::new(t);
+                if gzip {
+                    client = client.send_compressed(CompressionEncoding::Gzip).accept_compressed(CompressionEncoding::Gzip);
+                }
+                // lock-step: the requests go through a channel, one at a time, each after the previous answer
+                let (tx, rx) = tokio::sync::mpsc::channel::<pb::ServerReflectionRequest>(1);
+                let mut tx = Some(tx);
+                let resp = if step {
+                    client.server_reflection_info(tokio_stream::wrappers::ReceiverStream::new(rx)).await
+                } else {
+                    tx = None;
+                    drop(rx);
+                    client.server_reflection_info(tokio_stream::iter(reqs)).await
+                };
+                let mut inbound = match resp {
+                    Err(st) => {
+                        o.push(format!("call-err {}", st.code() as i32));
+                        o.push("]".into());
+                        return o;
+                    }
+                    Ok(r) => r.into_inner(),
+                };
+                let mut idx = 0usize;
+                loop {
+                    if step {
+                        if idx < sent.len() {
+                            if let Some(tx) = &tx {
+                                let _ = tx.send(sent[idx].clone()).await;
                             }
-                            Ok(None) => {
-                                o.push("end".into());
-                                break;
-                            }
-                            Err(st) => {
-                                o.push(format!("err {}", st.code() as i32));
-                                break;
-                            }
+                        } else {
+                            tx = None; // all requests sent and answered: end the request stream
                         }
                     }
-                    o.push("]".into());
-                    o
-                });
-                out.extend(toks);
+                    let next = if step {
+                        match tokio::time::timeout(std::time::Duration::from_secs(5), inbound.message()).await {
+                            Ok(r) => r,
+                            Err(_) => {
+                                o.push("stalled".into());
+                                break;
+                            }
+                        }
+                    } else {
+                        inbound.message().await
+                    };
+                    match next {
+                        Ok(Some(m)) => {
+                            let echo = idx < sent.len() && m.valid_host == sent[idx].host && m.original_request.as_ref() == Some(&sent[idx]);
+                            o.push(if echo { "r1".into() } else { "r0".into() });
+                            match m.message_response {
+                                None => o.push("empty".into()),
+                                Some(MessageResponse::FileDescriptorResponse(f)) => o.push(fd_token(&f.file_descriptor_proto, &ctx.all, &ctx.extras)),
+                                Some(MessageResponse::AllExtensionNumbersResponse(e)) => {
+                                    if e == pb::ExtensionNumberResponse::default() {
+                                        o.push("ext-empty".into())
+                                    } else {
+                                        o.push("ext-other".into())
+                                    }
+                                }
+                                Some(MessageResponse::ListServicesResponse(l)) => {
+                                    o.push(format!("svcs {}", l.service.len()));
+                                    let mut names: Vec<&str> = l.service.iter().map(|s| s.name.as_str()).collect();
+                                    if ctx.sort_services {
+                                        names.sort_unstable_by(|a, b| a.as_bytes().cmp(b.as_bytes()));
+                                    }
+                                    for n in names {
+                                        o.push(hex(n.as_bytes()));
+                                    }
+                                }
+                                Some(MessageResponse::ErrorResponse(e)) => o.push(format!("error-response {}", e.error_code)),
+                            }
+                            idx += 1;
+                            if idx > sent.len() + 4 {
+                                o.push("runaway".into());
+                                break;
+                            }
+                        }
+                        Ok(None) => {
+                            o.push("end".into());
+                            break;
+                        }
+                        Err(st) => {
+                            o.push(format!("err {}", st.code() as i32));
+                            break;
+                        }
+                    }
+                }
+                o.push("]".into());
+                o
             }
-            out.join(" ")
+
+            /// every stream of the case over clones of `t`: one after the other, or (`par`) all open at once
+            pub async fn run<T>(t: T, gzip: bool, mode: Mode, streams: &[Vec<Req>], ctx: &Ctx) -> String
+            where
+                T: tonic::client::GrpcService<tonic::body::Body> + Clone,
+                T::Error: Into<StdError>,
+                T::ResponseBody: http_body::Body<Data = bytes::Bytes> + Send + 'static,
+                <T::ResponseBody as http_body::Body>::Error: Into<StdError> + Send,
+            {
+                let mut out: Vec<String> = vec!["ok".into()];
+                let step = mode == Mode::Step;
+                if mode == Mode::Par {
+                    let futs: Vec<LocalFut<'_, Vec<String>>> =
+                        streams.iter().map(|s| Box::pin(one_stream(t.clone(), gzip, step, s, ctx)) as LocalFut<'_, Vec<String>>).collect();
+                    for toks in join_all(futs).await {
+                        out.extend(toks);
+                    }
+                } else {
+                    for s in streams {
+                        out.extend(one_stream(t.clone(), gzip, step, s, ctx).await);
+                    }
+                }
+                out.join(" ")
+            }
         }
     };
 }
-drive_version!(drive_v1, tonic_reflection::pb::v1, build_v1);
-drive_version!(drive_v1alpha, tonic_reflection::pb::v1alpha, build_v1alpha);
+version_mod!(ver1, tonic_reflection::pb::v1, build_v1);
+version_mod!(ver1a, tonic_reflection::pb::v1alpha, build_v1alpha);
 
 pub fn execute(case: &str) -> String {
     let c = match parse_case(case) {
@@ -710,8 +920,71 @@ pub fn execute(case: &str) -> String {
         all1a.push(own1a);
         extras.push(OPAQUE);
     }
-    let a = drive_v1(&c, &encoded, &all1, &extras);
-    let b = drive_v1alpha(&c, &encoded, &all1a, &extras);
+    let sort_services = c.chosen.is_none();
+    let ctx1 = Ctx { all: all1, extras: extras.clone(), sort_services };
+    let ctx1a = Ctx { all: all1a, extras, sort_services };
+    let (via, par) = match &c.drive {
+        Some(d) => (d.via, d.mode),
+        None => (Via::Direct, Mode::Seq),
+    };
+    let gzip = via == Via::H2z;
+    let b1 = ver1::build(&c, &encoded, gzip);
+    let b1a = ver1a::build(&c, &encoded, gzip);
+    // virtual time: nothing here waits for a timer except the lock-step client's stall watchdog, which
+    // therefore fires exactly when no task can make progress any more (deterministic, costs no real time)
+    let rt = paused_rt();
+    let (a, b) = match (b1, b1a) {
+        (Ok(s1), Ok(s1a)) if via != Via::Direct => {
+            // the route names the two generated servers register under (`NamedService::NAME`)
+            let names = format!("names {} {}", hex(ver1::server_name(&s1).as_bytes()), hex(ver1a::server_name(&s1a).as_bytes()));
+            let (_reporter, health) = tonic_health::server::health_reporter();
+            let streams = &c.streams;
+            let (a, b) = rt.block_on(async {
+                if via == Via::Routes {
+                    let routes = tonic::service::Routes::new(s1).add_service(s1a).add_service(health);
+                    let a = ver1::run(routes.clone(), gzip, par, streams, &ctx1).await;
+                    let b = ver1a::run(routes, gzip, par, streams, &ctx1a).await;
+                    (a, b)
+                } else {
+                    use tokio_stream::StreamExt;
+                    let (cio, sio) = tokio::io::duplex(1 << 16);
+                    let incoming = tokio_stream::once(Ok::<_, std::io::Error>(sio)).chain(tokio_stream::pending());
+                    tokio::spawn(async move {
+                        let _ = tonic::transport::Server::builder().add_service(s1).add_service(s1a).add_service(health).serve_with_incoming(incoming).await;
+                    });
+                    let io = std::sync::Arc::new(std::sync::Mutex::new(Some(cio)));
+                    let connector = tower::service_fn(move |_uri: http::Uri| {
+                        let io = io.lock().unwrap().take();
+                        async move {
+                            match io {
+                                Some(io) => Ok(hyper_util::rt::TokioIo::new(io)),
+                                None => Err(std::io::Error::new(std::io::ErrorKind::ConnectionRefused, "one connection only")),
+                            }
+                        }
+                    });
+                    let channel = match tonic::transport::Endpoint::from_static("http://verif.test").connect_with_connector(connector).await {
+                        Ok(ch) => ch,
+                        Err(_) => return ("connect-failed".to_string(), "connect-failed".to_string()),
+                    };
+                    let a = ver1::run(channel.clone(), gzip, par, streams, &ctx1).await;
+                    let b = ver1a::run(channel, gzip, par, streams, &ctx1a).await;
+                    (a, b)
+                }
+            });
+            (format!("{} {}", a, names), b)
+        }
+        (b1, b1a) => {
+            let a = match b1 {
+                Err(e) => build_err(&e),
+                Ok(s) => rt.block_on(ver1::run(s, gzip, par, &c.streams, &ctx1)),
+            };
+            let b = match b1a {
+                Err(e) => build_err(&e),
+                Ok(s) => rt.block_on(ver1a::run(s, gzip, par, &c.streams, &ctx1a)),
+            };
+            (a, b)
+        }
+    };
     // leading class token: only for the evidence statistics (the model prints it too)
     let class = if a.starts_with("ok") {
         "built"
@@ -866,7 +1139,7 @@ impl<'a> G<'a> {
         FileD {
             name,
             package,
-            extra: *self.rng.pick(&[0u64, 0, 0, 1, 2, 3, 4]),
+            extra: if self.rng.chance(1, 60) { 5 } else { *self.rng.pick(&[0u64, 0, 0, 1, 2, 3, 4]) },
             msgs: (0..nm).map(|_| self.msg(depth)).collect(),
             enums: (0..ne).map(|_| self.enumd()).collect(),
             svcs: (0..ns).map(|_| Svc { name: self.ident(), methods: self.names(3) }).collect(),
@@ -932,6 +1205,47 @@ fn file_names(f: &FileD, out: &mut Vec<String>) {
 
 fn mutate_name(rng: &mut Rng, s: &str) -> String {
     let parts: Vec<&str> = s.split('.').collect();
+    if rng.chance(1, 3) {
+        // spellings a "helpful" look-up might identify with the declared name: blanks / NUL / newline
+        // around it, the gRPC path and type-URL forms, one ASCII letter in the other case, a
+        // decomposed accent
+        let last_dot_slash = match s.rfind('.') {
+            Some(i) => format!("{}/{}", &s[..i], &s[i + 1..]),
+            None => format!("/{}", s),
+        };
+        let flip = |at_end: bool| -> String {
+            let mut cs: Vec<char> = s.chars().collect();
+            let idx: Vec<usize> = cs.iter().enumerate().filter(|(_, c)| c.is_ascii_alphabetic()).map(|(i, _)| i).collect();
+            if let Some(&i) = if at_end { idx.last() } else { idx.first() } {
+                cs[i] = if cs[i].is_ascii_uppercase() { cs[i].to_ascii_lowercase() } else { cs[i].to_ascii_uppercase() };
+            } else {
+                cs.push('_');
+            }
+            cs.into_iter().collect()
+        };
+        let v: Vec<String> = vec![
+            format!(" {}", s),
+            format!("{} ", s),
+            format!("{}\0", s),
+            format!("{}\n", s),
+            format!("\t{}", s),
+            format!("/{}", s),
+            format!("{}/", s),
+            last_dot_slash.clone(),
+            format!("/{}", last_dot_slash),
+            format!("type.googleapis.com/{}", s),
+            format!("type.googleapis.com/.{}", s),
+            format!("({})", s),
+            format!("[{}]", s),
+            flip(false),
+            flip(true),
+            if s.contains('é') { s.replace('é', "e\u{301}") } else { format!("{}\u{301}", s) },
+            s.replace('.', "/"),
+            s.replace('.', "::"),
+            s.replace('.', "$"),
+        ];
+        return rng.pick(&v).clone();
+    }
     match rng.below(12) {
         0 => format!("{}.", s),
         1 => format!(".{}", s),
@@ -1045,6 +1359,13 @@ fn streams_for(rng: &mut Rng, files: &[&FileD], own: Option<&(FileD, FileD)>, de
     bad.push(ReqK::X(declared.first().cloned().unwrap_or_default(), rng.below(5) as i32));
     bad.push(ReqK::N);
     ok.push(ReqK::L("*".into()));
+    // the same request again (a look-up must not depend on what was asked before)
+    if rng.chance(1, 3) {
+        for _ in 0..rng.range(1, 4) {
+            let k = rng.pick(&ok).clone();
+            ok.push(k);
+        }
+    }
     for v in [&mut ok, &mut bad] {
         for i in (1..v.len()).rev() {
             let j = rng.below(i as u64 + 1) as usize;
@@ -1083,6 +1404,23 @@ fn streams_for(rng: &mut Rng, files: &[&FileD], own: Option<&(FileD, FileD)>, de
             streams.push(cur);
         }
     }
+    // histories inside one stream: a name served from one table, then asked of the other table
+    if rng.chance(1, 4) && !fnames.is_empty() {
+        let n = rng.pick(&fnames).clone();
+        streams.push(vec![
+            Req { host: host(rng), k: ReqK::F(n.clone()) },
+            Req { host: host(rng), k: ReqK::F(n.clone()) },
+            Req { host: host(rng), k: ReqK::Y(n) },
+        ]);
+    }
+    if rng.chance(1, 4) && !declared.is_empty() {
+        let n = rng.pick(&declared).clone();
+        streams.push(vec![
+            Req { host: host(rng), k: ReqK::Y(n.clone()) },
+            Req { host: host(rng), k: ReqK::Y(n.clone()) },
+            Req { host: host(rng), k: ReqK::F(n) },
+        ]);
+    }
     if rng.chance(1, 10) {
         streams.push(Vec::new()); // a stream with no request at all
     }
@@ -1105,13 +1443,71 @@ fn all_files(regs: &[Reg]) -> Vec<&FileD> {
     v
 }
 
+/// A builder program for (`nregs` registrations, `nchosen` names, include = `inc`): the calls in any
+/// interleaving, `include_reflection_service` called never (default), once, or several times (the
+/// last call counts).
+fn gen_ops(rng: &mut Rng, nregs: usize, nchosen: usize, inc: bool) -> String {
+    let mut w: Vec<char> = Vec::new();
+    w.extend(std::iter::repeat('r').take(nregs));
+    w.extend(std::iter::repeat('n').take(nchosen));
+    for i in (1..w.len()).rev() {
+        let j = rng.below(i as u64 + 1) as usize;
+        w.swap(i, j);
+    }
+    let fin = if inc { 'i' } else { 'o' };
+    let calls: Vec<char> = match rng.below(5) {
+        0 | 1 if inc => vec![],
+        0 | 1 | 2 => vec![fin],
+        3 => vec![if inc { 'o' } else { 'i' }, fin],
+        _ => vec![*rng.pick(&['i', 'o']), *rng.pick(&['i', 'o']), fin],
+    };
+    for ch in calls {
+        // each later include call goes somewhere after the previous one
+        let from = w.iter().rposition(|x| *x == 'i' || *x == 'o').map_or(0, |p| p + 1);
+        let at = rng.range(from as u64, w.len() as u64) as usize;
+        w.insert(at, ch);
+    }
+    w.into_iter().collect()
+}
+
+fn gen_drive(rng: &mut Rng, c: &Case) -> Drive {
+    let via = match rng.below(20) {
+        0..=2 => Via::Routes,
+        3 | 4 => Via::H2,
+        5 => Via::H2z,
+        _ => Via::Direct,
+    };
+    let mode = match rng.below(8) {
+        0 | 1 => Mode::Par,
+        2 => Mode::Step,
+        _ => Mode::Seq,
+    };
+    let ops = if rng.chance(1, 2) { canonical_ops(c) } else { gen_ops(rng, c.regs.len(), c.chosen.as_ref().map_or(0, |l| l.len()), c.inc) };
+    Drive { via, mode, ops }
+}
+
 fn finish(kind: &str, rng: &mut Rng, inc: bool, chosen: Option<Vec<String>>, regs: Vec<Reg>, dense: bool) -> String {
     let own = if inc { Some(own_files()) } else { None };
     let streams = {
         let files = all_files(&regs);
         streams_for(rng, &files, own.as_ref(), dense)
     };
-    format!("{} {}", kind, render_case(&Case { inc, chosen, regs, streams, own }))
+    let mut c = Case { inc, chosen, regs, streams, own, drive: None };
+    c.drive = Some(gen_drive(rng, &c));
+    format!("{} {}", kind, render_case(&c))
+}
+
+/// the same, driven in a given way
+fn finish_with(kind: &str, rng: &mut Rng, inc: bool, chosen: Option<Vec<String>>, regs: Vec<Reg>, via: Via, mode: Mode, ops: Option<&str>) -> String {
+    let own = if inc { Some(own_files()) } else { None };
+    let streams = {
+        let files = all_files(&regs);
+        streams_for(rng, &files, own.as_ref(), true)
+    };
+    let mut c = Case { inc, chosen, regs, streams, own, drive: None };
+    let ops = ops.map(|s| s.to_string()).unwrap_or_else(|| canonical_ops(&c));
+    c.drive = Some(Drive { via, mode, ops });
+    format!("{} {}", kind, render_case(&c))
 }
 
 fn undecodable(rng: &mut Rng) -> Vec<u8> {
@@ -1233,6 +1629,24 @@ fn corpus(rng: &mut Rng) -> Vec<String> {
     // 12. path-shaped file names: every spelling is its own name.  Each registered spelling and
     //     every variant of it is asked in a stream of its own (an error ends a stream).
     out.extend(path_corpus());
+    // 13. how the case is driven: every transport x sequential / concurrent streams
+    let big = fl("big.proto", Some("big"), 5, vec![m("Big", vec![], vec![], &["f"], &["o"])], vec![], vec![sv("BigSvc", &["Get"])]);
+    for via in [Via::Direct, Via::Routes, Via::H2, Via::H2z] {
+        for par in [Mode::Seq, Mode::Par, Mode::Step] {
+            out.push(finish_with("corpus", rng, true, None, vec![Reg::S(vec![f1.clone()]), Reg::E(vec![big.clone(), f1_nopkg.clone()])], via, par, None));
+            out.push(finish_with("corpus", rng, false, Some(vec!["pkg.sub.Svc".into()]), vec![Reg::E(vec![f1.clone()])], via, par, None));
+        }
+    }
+    // 14. builder programs: the default (include_reflection_service never called), calls in every order,
+    //     include toggled (the last call counts), names before registrations
+    for (inc, ops) in [(true, "rr"), (true, "irr"), (true, "roir"), (false, "rro"), (false, "orr"), (false, "irro"), (true, "oorri"), (false, "iroir o")] {
+        let ops: String = ops.chars().filter(|c| *c != ' ').collect();
+        out.push(finish_with("corpus", rng, inc, None, vec![Reg::S(vec![f1.clone()]), Reg::E(vec![f1_emptypkg.clone()])], Via::Direct, Mode::Seq, Some(&ops)));
+    }
+    for (inc, ops) in [(true, "nrnr"), (true, "nnrr"), (false, "ornrn"), (false, "nonrir o"), (true, "rnorni")] {
+        let ops: String = ops.chars().filter(|c| *c != ' ').collect();
+        out.push(finish_with("corpus", rng, inc, Some(vec!["pkg.sub.Svc".into(), "nope".into()]), vec![Reg::S(vec![f1.clone()]), Reg::E(vec![f1_emptypkg.clone()])], Via::Direct, Mode::Seq, Some(&ops)));
+    }
     // 11. empty everything
     out.push(finish("corpus", rng, false, None, vec![], false));
     out.push(finish("corpus", rng, false, None, vec![Reg::S(vec![]), Reg::E(vec![])], false));
@@ -1269,7 +1683,7 @@ fn path_corpus() -> Vec<String> {
         }
         for enc in [false, true] {
             let regs = vec![if enc { Reg::E(files.clone()) } else { Reg::S(files.clone()) }];
-            out.push(format!("corpus {}", render_case(&Case { inc: false, chosen: None, regs, streams: streams.clone(), own: None })));
+            out.push(format!("corpus {}", render_case(&Case { inc: false, chosen: None, regs, streams: streams.clone(), own: None, drive: None })));
         }
     }
     out
@@ -1381,7 +1795,7 @@ fn exhaustive() -> Vec<String> {
             .enumerate()
             .map(|(j, i)| if (kinds >> j) & 1 == 0 { Reg::S(vec![cat[*i].clone()]) } else { Reg::E(vec![cat[*i].clone()]) })
             .collect();
-        format!("exhaustive {}", render_case(&Case { inc: false, chosen: None, regs, streams: streams.clone(), own: None }))
+        format!("exhaustive {}", render_case(&Case { inc: false, chosen: None, regs, streams: streams.clone(), own: None, drive: None }))
     };
     for a in 0..k {
         for kinds in 0..2 {
